@@ -35,7 +35,7 @@ func raceMain(args []string) {
 	node, gr, a, b, foreign := newWallet(), newWallet(), newWallet(), newWallet(), newWallet()
 	ctx, cancel := context.WithCancel(context.Background())
 	defer cancel()
-	ab, err := accountant.NewAccountingBook(ctx, accountant.Config{}, wallet.NewVerifier(), node, nopLogger{})
+	ab, err := accountant.NewAccountingBook(ctx, accountant.Config{Truncate: 2000}, wallet.NewVerifier(), node, nopLogger{})
 	if err != nil {
 		fatal("%v", err)
 	}
@@ -148,8 +148,18 @@ func raceMain(args []string) {
 		ops[3].Add(1)
 		time.Sleep(2 * time.Millisecond)
 	})
+	var claimed atomic.Uint64
+	claimed.Store(4000)
 	worker(8, func(rng *rand.Rand) {
 		time.Sleep(300 * time.Millisecond)
+		// a gossiped vertex that claims a weight above the truncation mark makes the REAL truncation loop run
+		// (runTruncate: checkCanTruncate, truncate, nextWeightTruncate) while proposals and deliveries go on
+		if p, ok := someTip(rng); ok {
+			wgt := claimed.Load()
+			claimed.Store(wgt * 3)
+			v, _ := accountant.NewVertex(newTrx(true), p.Hash, p.Hash, wgt, foreign)
+			_ = ab.AddLeaf(ctx, &v)
+		}
 		_ = ab.VerifTruncate(ctx)
 		_ = ab.AddTrustedNode(foreign.Address())
 		_ = ab.RemoveTrustedNode(foreign.Address())
